@@ -214,6 +214,8 @@ def is_int(t):
 
 
 def is_intarr(t):
+    if t[0] == 'nd':
+        t = t[1]
     tag = t[0]
     if tag == 'col':
         return t[2].startswith('sample_')
@@ -372,6 +374,8 @@ def keylen(key):
 
 
 def slice_(base, lo, hi, step=NONE):
+    if base[0] == 'nd':
+        base = base[1]
     if lo == ('const', 0):
         lo = NONE
     if step == ('const', 1):
